@@ -14,6 +14,13 @@ From TSG Require Import Model.ParseErr Proofs.ParseErr.
 Theorem outermost_is_filtered_preorder : forall t, outermost_decl t = outermost t.
 Proof. exact outermost_decl_eq. Qed.
 
+(* membership form: an error is reported iff it classifies (Unexpected for ERROR, else Missing) a node of the tree
+   none of whose proper ancestors is an ERROR or MISSING node - no nested error is reported, no outermost one lost *)
+Theorem reported_iff_outermost_flagged : forall t p,
+  In p (outermost_decl t) <->
+  exists x, In x (preorder_anc false t) /\ fst x = false /\ classify (snd x) = Some p.
+Proof. intros t p. rewrite outermost_decl_eq. apply outermost_In_iff. Qed.
+
 (* with sufficient fuel the loop of `find_errors(tree, errors, false)` returns exactly that list *)
 Theorem find_errors_spec : forall he t fuel,
   oracle_ok he t = true -> (2 * psize t + 1 <= fuel)%nat ->
